@@ -57,21 +57,21 @@ type LeaseRef struct {
 }
 
 type Op struct {
-	Kind    Kind                             `json:"kind"`
-	Envs    []queue.Envelope                 `json:"envs,omitempty"`
-	Deq     *queue.DequeueRequest            `json:"deq,omitempty"`
-	Leases  []LeaseRef                       `json:"leases,omitempty"`
-	Dur     time.Duration                    `json:"dur,omitempty"` // nack delay / extend / advance
-	Reason  string                           `json:"reason,omitempty"`
-	IDs     []string                         `json:"ids,omitempty"`
+	Kind    Kind                              `json:"kind"`
+	Envs    []queue.Envelope                  `json:"envs,omitempty"`
+	Deq     *queue.DequeueRequest             `json:"deq,omitempty"`
+	Leases  []LeaseRef                        `json:"leases,omitempty"`
+	Dur     time.Duration                     `json:"dur,omitempty"` // nack delay / extend / advance
+	Reason  string                            `json:"reason,omitempty"`
+	IDs     []string                          `json:"ids,omitempty"`
 	Filter  *queue.MessageManageFilterRequest `json:"filter,omitempty"`
-	List    *queue.MessageListRequest        `json:"list,omitempty"`
-	DeadL   *queue.DeadListRequest           `json:"dead_list,omitempty"`
-	Attempt *queue.DeliveryAttempt           `json:"attempt,omitempty"`
-	AttL    *queue.AttemptListRequest        `json:"att_list,omitempty"`
-	TrendL  *queue.BacklogTrendListRequest   `json:"trend_list,omitempty"`
-	At      time.Time                        `json:"at,omitempty"`
-	Forced  bool                             `json:"forced,omitempty"` // dequeue whose batch covers every eligible message
+	List    *queue.MessageListRequest         `json:"list,omitempty"`
+	DeadL   *queue.DeadListRequest            `json:"dead_list,omitempty"`
+	Attempt *queue.DeliveryAttempt            `json:"attempt,omitempty"`
+	AttL    *queue.AttemptListRequest         `json:"att_list,omitempty"`
+	TrendL  *queue.BacklogTrendListRequest    `json:"trend_list,omitempty"`
+	At      time.Time                         `json:"at,omitempty"`
+	Forced  bool                              `json:"forced,omitempty"` // dequeue whose batch covers every eligible message
 }
 
 func (o Op) String() string {
@@ -92,17 +92,17 @@ func (o Op) String() string {
 
 // Res is the normalised outcome of one operation on one backend.
 type Res struct {
-	Err      string                    `json:"err"` // error class ("ok" on success)
-	RawErr   string                    `json:"raw_err,omitempty"`
-	N        int                       `json:"n"`
-	Matched  int                       `json:"matched"`
-	Preview  bool                      `json:"preview,omitempty"`
-	Items    []queue.Envelope          `json:"-"`
-	ItemIDs  []string                  `json:"item_ids,omitempty"`
-	Batch    *queue.LeaseBatchResult   `json:"batch,omitempty"`
-	Lookup   []queue.MessageLookupItem `json:"lookup,omitempty"`
-	Stats    *queue.Stats              `json:"stats,omitempty"`
-	Attempts []queue.DeliveryAttempt   `json:"attempts,omitempty"`
+	Err      string                          `json:"err"` // error class ("ok" on success)
+	RawErr   string                          `json:"raw_err,omitempty"`
+	N        int                             `json:"n"`
+	Matched  int                             `json:"matched"`
+	Preview  bool                            `json:"preview,omitempty"`
+	Items    []queue.Envelope                `json:"-"`
+	ItemIDs  []string                        `json:"item_ids,omitempty"`
+	Batch    *queue.LeaseBatchResult         `json:"batch,omitempty"`
+	Lookup   []queue.MessageLookupItem       `json:"lookup,omitempty"`
+	Stats    *queue.Stats                    `json:"stats,omitempty"`
+	Attempts []queue.DeliveryAttempt         `json:"attempts,omitempty"`
 	Trend    *queue.BacklogTrendListResponse `json:"trend,omitempty"`
 	// Resolved lease ids presented (same order as Op.Leases).
 	Presented []string `json:"presented,omitempty"`
@@ -282,11 +282,17 @@ func (a *Actor) Apply(op Op) Res {
 		setErr(err)
 		res.Items = r.Items
 		res.N = len(r.Items)
+		for _, it := range r.Items {
+			res.ItemIDs = append(res.ItemIDs, it.ID)
+		}
 	case KList:
 		r, err := st.ListMessages(*op.List)
 		setErr(err)
 		res.Items = r.Items
 		res.N = len(r.Items)
+		for _, it := range r.Items {
+			res.ItemIDs = append(res.ItemIDs, it.ID)
+		}
 	case KLookup:
 		r, err := st.LookupMessages(queue.MessageLookupRequest{IDs: op.IDs})
 		setErr(err)
